@@ -12,6 +12,8 @@ import (
 	"fmt"
 	"net/http"
 	"net/http/httptest"
+	"os"
+	"path/filepath"
 	"runtime"
 	"strconv"
 	"strings"
@@ -34,10 +36,16 @@ var polluters = map[string]string{
 	"failDeep":  "如何F1？\n    输出（F2）\n如何F2？\n    输出（F3）\n如何F3？\n    输出1 / 0\n输出（F1）\n",
 	"declare":   "令X = 1\n令Y恒为2\n如何试名？\n    输出“polluted”\n定义某类：\n    其p = 1\n输出X\n",
 	"importLib": "导入《@JSON》\n导入《@文件》\n输出（生成JSON：【“a” = 1】）\n",
+	"mutResp":   "导入《@测试》\n令应 = （新建HTTP响应：200、“ok”）\n以{应之头部}（写入：“Set-Cookie”、“sid=1”）\n应之头部#“X” = “y”\n令应二 = （新建HTTP响应：200、【1】）\n以{应二之头部}（写入：“Set-Cookie”、“sid=2”）\n输出应之头部\n",
+	// executed as a FILE (LoadFile) next to the module file 工具/计算.zn
+	"fileImport": "导入“工具-计算”\n输出（算：1）\n",
 }
 
-const isoProbe = "导入《@测试》\n如何试异常？\n    抛出异常：“m”！\n    拦截异常：\n        输出其内容\n\n如何试名？\n    输出X\n    拦截异常：\n        输出“undefined”\n\n" +
-	"如何试深？\n    输出1 / 0\n    拦截异常：\n        输出“caught”\n\n令物 = （新建HTTP请求：“GET”、“u”）\n输出【数值，（试异常），物之方法，物之头部，（试名），（试深）】\n"
+const isoModule = "如何算？\n    输入甲\n    输出甲 + 41\n"
+
+// the probe is executed as a FILE too, next to the same module file
+const isoProbe = "导入《@测试》\n导入“工具-计算”\n如何试异常？\n    抛出异常：“m”！\n    拦截异常：\n        输出其内容\n\n如何试名？\n    输出X\n    拦截异常：\n        输出“undefined”\n\n" +
+	"如何试深？\n    输出1 / 0\n    拦截异常：\n        输出“caught”\n\n令物 = （新建HTTP请求：“GET”、“u”）\n令应 = （新建HTTP响应：200、“ok”）\n令应二 = （新建HTTP响应：200、【1】）\n输出【数值，（试异常），物之方法，物之头部，（试名），（试深），应之头部，应二之头部，（算：1）】\n"
 
 type isoCase struct {
 	Seq  []string `json:"seq"`
@@ -53,11 +61,28 @@ func handleIso(raw json.RawMessage) interface{} {
 	mk := func() *exec.Interpreter { return exec.NewInterpreter("verif").SetExternalLibs(libs()) }
 	z := mk()
 	var outs []string
-	for _, p := range c.Seq {
+	dir, derr := os.MkdirTemp(os.Getenv("VERIF_SCRATCH"), "iso-")
+	if derr != nil {
+		return map[string]interface{}{"obs": "harness-error", "detail": derr.Error()}
+	}
+	defer os.RemoveAll(dir)
+	os.MkdirAll(filepath.Join(dir, "工具"), 0755)
+	os.WriteFile(filepath.Join(dir, "工具", "计算.zn"), []byte(isoModule), 0644)
+	runFile := func(z *exec.Interpreter, name, src string) (r.Element, error) {
+		p := filepath.Join(dir, name)
+		os.WriteFile(p, []byte(src), 0644)
+		return z.LoadFile(p).Execute(r.ElementMap{})
+	}
+	for k, p := range c.Seq {
 		if !c.Same {
 			z = mk()
 		}
-		_, err := z.LoadScript([]rune(polluters[p])).Execute(r.ElementMap{})
+		var err error
+		if p == "fileImport" {
+			_, err = runFile(z, fmt.Sprintf("污%d.zn", k), polluters[p])
+		} else {
+			_, err = z.LoadScript([]rune(polluters[p])).Execute(r.ElementMap{})
+		}
 		if err != nil {
 			outs = append(outs, "error")
 		} else {
@@ -67,7 +92,7 @@ func handleIso(raw json.RawMessage) interface{} {
 	if !c.Same {
 		z = mk()
 	}
-	v, err := z.LoadScript([]rune(isoProbe)).Execute(r.ElementMap{})
+	v, err := runFile(z, "探.zn", isoProbe)
 	res := map[string]interface{}{"obs": "value", "_fresh": true, "polluters": outs}
 	if err != nil {
 		res["obs"] = "error"
